@@ -98,13 +98,13 @@ func workerMain(args []string) int {
 	deadline := fs.Int64("deadline", 0, "unix seconds; 0 = none")
 	skip := fs.String("skip", "", "run indices to skip (they killed an earlier worker)")
 	fs.Parse(args)
+	runtime.GOMAXPROCS(envInt("VERIF_PROCS", 1))
 	skipSet := map[int]bool{}
 	for _, x := range strings.Split(*skip, ",") {
 		if n, err := strconv.Atoi(x); err == nil {
 			skipSet[n] = true
 		}
 	}
-	runtime.GOMAXPROCS(1)
 
 	kn := parseKnown(*known)
 	wo := &workerOut{Ops: map[string]int{}, Events: map[string]int{}, Probes: map[string]int{}, Skipped: map[string]int{}, KnownHits: map[string]int{}, Kinds: map[string]int{}}
@@ -215,7 +215,7 @@ func execMain(args []string) int {
 	known := fs.String("known", "", "")
 	verbose := fs.Bool("v", false, "")
 	fs.Parse(args)
-	runtime.GOMAXPROCS(1)
+	runtime.GOMAXPROCS(envInt("VERIF_PROCS", 1))
 	var rf ReplayFile
 	if err := readJSON(*path, &rf); err != nil || rf.Trace == nil {
 		var tr Trace
@@ -273,10 +273,6 @@ func main() {
 		rc = genMain(os.Args[2:])
 	case "check":
 		rc = checkMain(os.Args[2:])
-	case "heapworker":
-		rc = heapWorkerMain(os.Args[2:])
-	case "raceworker":
-		rc = raceWorkerMain(os.Args[2:])
 	default:
 		fmt.Fprintln(os.Stderr, "unknown subcommand", os.Args[1])
 		rc = 2
